@@ -1,4 +1,5 @@
 mod alloc;
+mod apisim;
 mod badgen;
 mod chainsim;
 mod checks;
@@ -107,6 +108,7 @@ fn main() {
 				Some("pibdsim") => pibdsim::replay(rp),
 				Some("schedsim") => schedsim::replay(rp),
 				Some("dbsim") => dbsim::replay(rp),
+				Some("apisim") => apisim::replay(rp),
 				Some("wiresim") => {
 					if rp["property"].as_str() == Some("C11") {
 						wiresim::replay_c11(rp)
